@@ -3,3 +3,4 @@ from . import rules_arch  # noqa
 from . import rules_walk  # noqa
 from . import rules_tables  # noqa
 from . import rules_sched  # noqa
+from . import rules_guard  # noqa
